@@ -718,6 +718,11 @@ static uint64_t hash_items(const std::vector<Item> &items)
 
 static void run_format(const std::vector<Item> &items, bool mirror, bool wrappers)
 {
+    if (pf::skip_after_hangs())
+    {
+        VF_OK("skipped: the run already recorded repeated hangs");
+        return;
+    }
     Verdict v = evaluate(items, mirror, wrappers, true);
     note_features(items);
     bool nontrivial = false;
@@ -1268,6 +1273,7 @@ VF_SUITE(random, rnd_count, rnd_run)
 
 extern "C" void vf_setup()
 {
+    pf::setup();
     if (only_suite() && *only_suite())
         return; // partial debugging run: no completeness demands
     for (const char *c : {"callback bytes == ISO C rendering (glibc vsnprintf, same call)", "return value == number of characters emitted",
